@@ -192,6 +192,19 @@ func TestVerif_C01_h1send(t *testing.T) {
 			case <-time.After(10 * time.Second):
 			}
 		}
+		// a connection on which nothing arrived belongs to an earlier case whose write failed
+		// before the first byte (the listener may hand it over late): not part of this exchange
+		if len(caps) > 1 {
+			var live []*c01Capture1
+			for _, c := range caps {
+				if c.raw.Len() > 0 {
+					live = append(live, c)
+				}
+			}
+			if len(live) >= 1 {
+				caps = live
+			}
+		}
 		if d := time.Since(t0); d > 150*time.Millisecond {
 			s.Count("slow>150ms")
 			t.Logf("slow case (%v): %s err=%v", d, human, err)
@@ -207,18 +220,28 @@ func TestVerif_C01_h1send(t *testing.T) {
 		// The same race exists when the peer answers early for another reason (400 for a head the
 		// reference parser refuses) while the write of a body SHORTER than declared is still to fail.
 		clMismatch := tc.bodyKind != 0 && tc.cl > 0 && tc.cl != int64(len(tc.body))
-		clRace := err == nil && clMismatch && len(caps) == 1
+		preWrite := map[string]bool{"err:header": true, "err:method": true, "err:nohost": true, "err:ctl": true, "err:clnil": true, "err:hostproxy": true}
 		switch {
-		case clRace && !caps[0].parsed:
+		case clMismatch && !(err != nil && preWrite[c01SendErrKind(err)]):
+			// By nature a race between the write error, the peer's answer and the peer's own
+			// time-outs: whichever way it ends it is the model's err:bodylen. What must hold: a
+			// request the peer took for complete carries exactly the declared-length prefix.
 			ans = "err:bodylen"
-			s.Count("bodylen-race-early-400")
-		case clRace:
-			wire := caps[0].raw.Bytes()
-			if k := bytes.Index(wire, []byte("\r\n\r\n")); k >= 0 && tc.cl < int64(len(tc.body)) && bytes.Equal(wire[k+4:], tc.body[:tc.cl]) {
-				ans = "err:bodylen"
+			s.Count("err:bodylen")
+			if err == nil {
 				s.Count("bodylen-race-response-won")
-			} else {
-				ans = "ok-with-wrong-body " + c01Blob(wire)
+			}
+			for _, c := range caps {
+				if !c.parsed {
+					continue
+				}
+				wire := c.raw.Bytes()
+				k := bytes.Index(wire, []byte("\r\n\r\n"))
+				chunked := bytes.Contains(bytes.ToLower(wire[:k+2]), []byte("\r\ntransfer-encoding:"))
+				if k < 0 || tc.cl > int64(len(tc.body)) || (!chunked && !bytes.Equal(wire[k+4:], tc.body[:tc.cl])) {
+					ok = false
+					human += " ORACLE: the peer accepted a request whose body is not the declared-length prefix"
+				}
 			}
 		case err != nil && (len(caps) == 0 || caps[0].raw.Len() == 0 || !strings.Contains(c01SendErrKind(err), "other")):
 			ans = c01SendErrKind(err)
